@@ -831,6 +831,34 @@ pub mod verif_api {
         )
     }
 
+    /// everything `precompute_problem` produced, as plain data: matrix rows, dummy_x, skip_x_always,
+    /// course_map, inverse_course_map, room_sizes
+    #[allow(clippy::type_complexity)]
+    pub fn pre_dump(
+        pre: &Pre,
+    ) -> (
+        Vec<Vec<i64>>,
+        Vec<bool>,
+        Vec<bool>,
+        Vec<usize>,
+        Vec<usize>,
+        Option<Vec<usize>>,
+    ) {
+        (
+            pre.0
+                .adjacency_matrix
+                .rows()
+                .into_iter()
+                .map(|r| r.iter().map(|w| *w as i64).collect())
+                .collect(),
+            pre.0.dummy_x.to_vec(),
+            pre.0.skip_x_always.to_vec(),
+            pre.0.course_map.to_vec(),
+            pre.0.inverse_course_map.clone(),
+            pre.0.room_sizes.clone(),
+        )
+    }
+
     fn node_data(n: &BABNode) -> NodeData {
         (
             n.cancelled_courses.clone(),
